@@ -87,7 +87,7 @@ func init() {
 const tMaxTable = 6 + 4*9
 
 var tDbl = []float64{1.5, -2, math.Inf(1), math.SmallestNonzeroFloat64, 1e300}
-var tStr = []string{"a", "héllo", strings.Repeat("x", 200), "\x00\xff", "k"}
+var tStr = []string{"a", "héllo", strings.Repeat("x", 200), "\x00\xff", "k", strings.Repeat("y", 127), strings.Repeat("z", 128)}
 
 type tlift struct{ salt int }
 
